@@ -35,6 +35,8 @@ HIGH = None  # filled from the first observation
 
 
 def hx(s):
+    if '+' in s:
+        return b''.join(hx(p) for p in s.split('+'))
     if s == '-':
         return b''
     if s.startswith('*'):
@@ -123,6 +125,7 @@ class ManualStore(object):
 
     def get_authkey(self, ident):
         fut = self.eng.loop.create_future()
+        fut.ident = ident
         self.eng.pending.setdefault(self.eng.current, []).append(fut)
         return fut
 
@@ -573,6 +576,11 @@ class Shadow(object):
             c.wants_lenient.clear()
         elif k == 'lookup_done':
             c = self.conns[ev[1]]
+            if ev[2] >= len(c.lookups):
+                # the implementation started a look-up the spec does not foresee (it acted on a frame it
+                # should not have); the per-event monitors judge the consequences
+                self.flags.add('unforeseen-lookup')
+                return exp
             ident, digest = c.lookups.pop(ev[2])
             r = ev[3]
             if c.gone:
@@ -620,7 +628,7 @@ def tags_for(shadow, did, meta_src=None, chan=None):
         tags.add('C04')
     if chan is not None and chan not in d.sub:
         tags.add('C04')
-    if any(c.gone for c in shadow.conns.values()):
+    if any(c.gone or not c.open or not c.clean for c in shadow.conns.values()):
         tags.add('C09')
     if shadow.cfg['mode'] == 'async':
         tags.add('C14')
@@ -872,7 +880,7 @@ def mk_cfg(rng, mode, profile):
     rows = {}
     names = ['alice', 'bob', 'carol'] + (['ünï'] if rng.random() < 0.3 else []) + ([''] if rng.random() < 0.1 else [])
     for n in names:
-        if profile in ('fanout', 'subs', 'gauges', 'stall', 'async', 'loss'):
+        if profile in ('fanout', 'subs', 'gauges', 'stall', 'async', 'loss', 'window'):
             pub = ['c1', 'c2', 'c3']
             sub = ['c1', 'c2', 'c3']
         else:
@@ -946,7 +954,7 @@ class Gen(object):
         nfr = rng.choice([1, 1, 1, 2, 3])
         for _ in range(nfr):
             r = rng.random()
-            bad = {'adversary': 0.35, 'preauth': 0.3, 'spoof': 0.3, 'acl': 0.3}.get(prof, 0.06)
+            bad = {'adversary': 0.35, 'preauth': 0.3, 'spoof': 0.3, 'acl': 0.3, 'window': 0.12, 'reauth': 0.08}.get(prof, 0.06)
             if me is None:
                 if r < (0.5 if prof == 'preauth' else 0.12):
                     # something else first
@@ -985,20 +993,24 @@ class Gen(object):
                 else:
                     out += self.auth_bytes(cid, valid=False)
                 continue
-            wsub = {'subs': 0.6, 'fanout': 0.3, 'gauges': 0.5}.get(prof, 0.35)
+            wsub = {'subs': 0.6, 'fanout': 0.3, 'gauges': 0.5, 'window': 0.3}.get(prof, 0.35)
             if r < bad + wsub:
                 ch = rng.choice(row['sub'] or allc)
-                if rng.random() < (0.45 if prof in ('subs', 'gauges') else 0.25):
+                if prof in ('window', 'fanout') and 'c1' in row['sub'] and rng.random() < 0.6:
+                    ch = 'c1'
+                if rng.random() < (0.45 if prof in ('subs', 'gauges') else (0.1 if prof == 'window' else 0.25)):
                     for _ in range(rng.choice([1, 1, 2, 3])):
                         out += enc(P.OP_UNSUBSCRIBE, p8(me.encode()) + ch.encode())
                 else:
                     for _ in range(rng.choice([1, 1, 1, 2, 3]) if prof in ('subs', 'gauges', 'loss') else 1):
                         out += enc(P.OP_SUBSCRIBE, p8(rng.choice([me, me, 'whoever']).encode()) + ch.encode())
-            elif r < bad + wsub + 0.05 and prof in ('reauth', 'adversary', 'gauges'):
+            elif r < bad + wsub + (0.2 if prof == 'reauth' else 0.08 if prof in ('adversary', 'gauges', 'spoof') else 0.04):
                 out += self.auth_bytes(cid, valid=True)
                 me = self.ident.get(cid)
             else:
                 ch = rng.choice(row['pub'] or allc)
+                if prof in ('window', 'fanout') and 'c1' in row['pub'] and rng.random() < 0.6:
+                    ch = 'c1'
                 n = rng.choice([0, 1, 2, 5, 255, 256, 1000])
                 if self.bigleft and rng.random() < 0.03:
                     self.bigleft -= 1
@@ -1061,13 +1073,13 @@ def gen_script(rng, tier, profile):
                     res = ['raised']
                 do(['lookup_done', cid, i, res])
                 continue
-            wl = {'loss': 0.2, 'gauges': 0.15, 'adversary': 0.12}.get(profile, 0.06)
+            wl = {'loss': 0.2, 'gauges': 0.15, 'adversary': 0.12, 'window': 0.1}.get(profile, 0.06)
             if r < 0.15 + wl and impl.tr:
                 cands = [cid for cid, t in impl.tr.items() if not t.gone]
                 if cands:
                     cid = rng.choice(cands)
                     t = impl.tr[cid]
-                    if not t.closing and not t.paused and rng.random() < 0.4:
+                    if not t.closing and not t.paused and rng.random() < (0.85 if profile == 'window' else 0.4):
                         do(['eof', cid])
                     else:
                         do(['lost', cid])
@@ -1122,17 +1134,227 @@ def gen_script(rng, tier, profile):
     return {'cfg': cfg, 'events': events, 'profile': profile, 'chans': [c.encode().hex() or '-' for c in CHANS]}
 
 
+def replan(base, insert_at, lost_c, extra=None):
+    """crash-point variant of a script: `lost lost_c` is inserted before event `insert_at`; the remaining
+    events are re-validated online against the implementation (events the transport contract forbids
+    after the change are dropped, clocks are clamped to the next deadline, timer fires are re-derived)"""
+    cfg = base['cfg']
+    impl = Impl(cfg)
+    events = []
+    deadlines = {}
+
+    def do(ev):
+        events.append(ev)
+        impl.event(ev)
+
+    def fire_due():
+        for c, t in sorted(deadlines.items()):
+            if t <= impl.loop.ms:
+                do(['fire', c])
+                deadlines.pop(c, None)
+
+    try:
+        for i, ev in enumerate(base['events'] + [['dump']]):
+            if i == insert_at:
+                if lost_c in impl.tr and not impl.tr[lost_c].gone:
+                    fire_due()
+                    do(['lost', lost_c])
+                    if extra == 'late-verdicts':
+                        # the look-ups that were in flight complete (successfully) right after the loss
+                        while impl.pending.get(lost_c):
+                            ident = impl.pending[lost_c][0].ident
+                            row = cfg['rows'].get(ident.encode('utf-8').hex() or '-')
+                            do(['lookup_done', lost_c, 0, ['row', row] if row else ['missing']])
+            k = ev[0]
+            if k == 'fire':
+                continue
+            fire_due()
+            c = ev[1] if len(ev) > 1 and k not in ('advance', 'dump') else None
+            t = impl.tr.get(c)
+            if k == 'connect':
+                if c in impl.tr:
+                    continue
+            elif k == 'data':
+                if t is None or t.closing or t.paused or t.gone:
+                    continue
+            elif k == 'eof':
+                if t is None or t.closing or t.paused:
+                    continue
+            elif k == 'lost':
+                if t is None or t.gone:
+                    continue
+            elif k == 'lookup_done':
+                if t is None or ev[2] >= len(impl.pending.get(c, [])):
+                    if t is not None and impl.pending.get(c):
+                        ev = [k, c, 0, ev[3]]
+                    else:
+                        continue
+            elif k == 'pause':
+                if t is None or t.gone or c in deadlines:
+                    continue
+                deadlines[c] = impl.loop.ms + GRACE_MS
+            elif k == 'resume':
+                if t is None or t.gone:
+                    continue
+                deadlines.pop(c, None)
+            elif k == 'advance':
+                nxt = (min(deadlines.values()) - impl.loop.ms) if deadlines else 10 ** 9
+                ev = ['advance', min(ev[1], max(nxt, 0))]
+            elif k == 'dump':
+                for cid, tt in list(impl.tr.items()):
+                    if tt.closing and not tt.gone:
+                        do(['lost', cid])
+            do(ev)
+    finally:
+        impl.close()
+    out = dict(base)
+    out['events'] = events
+    out['variant'] = {'lost': lost_c, 'at': insert_at}
+    return out
+
+
+def loss_sweep(base, rng, tier, limit):
+    """variants of `base` with a connection lost at sampled (quick) or all (thorough) points"""
+    evs = base['events']
+    seen = {}
+    points = []
+    for i, ev in enumerate(evs):
+        for c in list(seen):
+            points.append((i, c))
+        if ev[0] == 'connect':
+            seen[ev[1]] = True
+    # favour points right after a data event of that connection (mid-frame, look-up pending, just subscribed)
+    hot = [(i, c) for (i, c) in points if i > 0 and evs[i - 1][0] in ('data', 'pause') and evs[i - 1][1] == c]
+    rng.shuffle(points)
+    rng.shuffle(hot)
+    chosen = (hot + points)[:limit] if tier == 'quick' else (hot + [p for p in points if p not in hot])[:limit]
+    late = base['cfg']['mode'] == 'async'
+    return [replan(base, i, c, extra='late-verdicts' if (late and k % 2 == 0) else None) for k, (i, c) in enumerate(chosen)]
+
+
+def locate_divergence(script, drv):
+    """index of the first event after which model and implementation visibly differ (dump after each event)"""
+    probe = dict(script)
+    evs = []
+    for ev in script['events']:
+        if ev[0] != 'dump':
+            evs.append(ev)
+            evs.append(['dump'])
+    probe['events'] = evs
+    r = Result('broker')
+    run_script(probe, drv, r)
+    if not r.disagreements:
+        return None
+    w = r.disagreements[0]['what']
+    if w.startswith('dump '):
+        k = int(w.split()[1])
+        return k          # k-th dump follows the k-th non-dump event
+    if w.startswith('model rejects event'):
+        return int(w.split()[3]) // 2
+    return len([e for e in script['events'] if e[0] != 'dump']) - 1
+
+
+def probe_variants(script, idx):
+    """directed search around a diverging event: observers subscribed to everything are added first, and
+    the diverging chunk is extended with batches of probing frames (publishes under every ident on every
+    channel; subscribes to every channel followed by publishes from a clean publisher)"""
+    cfg = script['cfg']
+    rows = {hx(k): r for k, r in cfg['rows'].items()}
+    base = [e for e in script['events'] if e[0] != 'dump']
+    if idx is None or idx >= len(base):
+        return []
+    ev = base[idx]
+    chans = sorted({hx(c) for r in rows.values() for c in r['pubchans'] + r['subchans']})
+    idents = list(rows) + [b'nobody']
+    pre = []
+    nid = 900
+    observers = []
+    for ident, r in rows.items():
+        if not r['subchans']:
+            continue
+        nonce = bytes([nid % 256, 1, 2, 3])
+        pre.append(['connect', nid, nonce.hex()])
+        data = enc(P.OP_AUTH, p8(ident) + hashlib.sha1(nonce + hx(r['secret'])).digest())
+        for c in r['subchans']:
+            data += enc(P.OP_SUBSCRIBE, p8(ident) + hx(c))
+        pre.append(['data', nid, hexin(data)])
+        if cfg['mode'] == 'async':
+            pre.append(['lookup_done', nid, 0, ['row', r]])
+        observers.append(nid)
+        nid += 1
+    pubs = b''.join(enc(P.OP_PUBLISH, p8(i) + p8(ch) + b'probe') for i in idents for ch in chans)
+    subs = b''.join(enc(P.OP_SUBSCRIBE, p8(b'x') + ch) for ch in chans)
+    out = []
+    if ev[0] in ('data', 'lookup_done'):
+        c = ev[1]
+        cnonce = next((hx(e[2]) for e in base if e[0] == 'connect' and e[1] == c), b'\x00' * 4)
+        # state enrichment: the same chunk behind a valid AUTH (+ subscriptions) as each identity
+        heads = [b'']
+        if cfg['mode'] == 'sync':
+            for ident, r in rows.items():
+                h = enc(P.OP_AUTH, p8(ident) + hashlib.sha1(cnonce + hx(r['secret'])).digest())
+                for ch in r['subchans']:
+                    h += enc(P.OP_SUBSCRIBE, p8(ident) + hx(ch))
+                heads.append(h)
+        tails = [(h, t) for h in heads for t in (pubs, subs, subs + pubs)]
+        for h, t in tails:
+            if ev[0] == 'data':
+                evs = base[:idx] + pre + [['data', c, hexin(h + hx(ev[2]) + t)]]
+            else:
+                # park the probes behind the pending look-up, then deliver the verdict
+                evs = base[:idx] + pre + [ev]
+            # a clean publisher then publishes on every channel (closing-window leaks)
+            for ident, r in rows.items():
+                if r['pubchans']:
+                    nonce = bytes([nid % 256, 9, 9, 9])
+                    evs.append(['connect', nid, nonce.hex()])
+                    data = enc(P.OP_AUTH, p8(ident) + hashlib.sha1(nonce + hx(r['secret'])).digest())
+                    for ch in r['pubchans']:
+                        data += enc(P.OP_PUBLISH, p8(ident) + p8(hx(ch)) + b'late')
+                    evs.append(['data', nid, hexin(data)])
+                    if cfg['mode'] == 'async':
+                        evs.append(['lookup_done', nid, 0, ['row', r]])
+                    nid += 1
+                    break
+            v = dict(script)
+            v['events'] = evs + [['dump']]
+            v['variant'] = {'probe': True, 'at': idx}
+            out.append(v)
+    return out
+
+
+def directed_search(res, drv, limit=4):
+    """when the correspondence broke: look for a concrete property violation near each disagreement"""
+    done = 0
+    for dis in list(res.disagreements)[:limit]:
+        try:
+            idx = locate_divergence(dis['script'], drv)
+            for v in probe_variants(dis['script'], idx):
+                try:
+                    v2 = replan(v, -1, None)
+                except Exception:
+                    v2 = v
+                r2 = Result('broker')
+                run_script(v2, drv, r2, want_model=False)
+                res.violations += r2.violations
+                res.note('directed-search.variants')
+                done += 1
+        except Exception as e:  # the search is best effort
+            res.note('directed-search.error')
+    return done
+
+
 PROFILES = {
-    'C01': ['fanout', 'fanout', 'subs', 'adversary', 'loss'],
+    'C01': ['fanout', 'window', 'subs', 'adversary', 'loss', 'reauth'],
     'C02': ['preauth', 'preauth', 'adversary'],
-    'C03': ['spoof', 'spoof', 'acl'],
-    'C04': ['acl', 'acl', 'adversary', 'loss'],
+    'C03': ['spoof', 'reauth', 'acl', 'spoof'],
+    'C04': ['acl', 'window', 'adversary', 'reauth', 'loss'],
     'C08': ['subs', 'subs', 'gauges'],
-    'C09': ['loss', 'loss', 'gauges', 'async'],
-    'C10': ['adversary', 'adversary', 'loss', 'stall'],
+    'C09': ['loss', 'window', 'gauges', 'async', 'fanout'],
+    'C10': ['adversary', 'window', 'loss', 'stall', 'adversary'],
     'C14': ['async'],
     'C15': ['stall', 'stall', 'fanout'],
-    'C19': ['gauges', 'gauges', 'loss', 'subs'],
+    'C19': ['gauges', 'reauth', 'loss', 'subs', 'gauges'],
 }
 
 
@@ -1144,8 +1366,12 @@ def run(tier, seed, drv, prop=None, n=None):
     profiles = PROFILES.get(prop, ['fanout', 'adversary'])
     for k in range(n):
         profile = profiles[k % len(profiles)]
-        script = gen_script(rng, tier, profile)
-        flags, viol = run_script(script, drv, res)
+        try:
+            script = gen_script(rng, tier, profile)
+            flags, viol = run_script(script, drv, res)
+        except Timeout:
+            res.violation(prop, 'termination', 'the broker did not finish handling an event within 20 s while generating a history', {'section': 'generator-timeout', 'profile': profile, 'k': k})
+            continue
         res.note('profile.' + profile)
         key = ['b', profile, len(script['events']), sorted(flags)]
         if 'auth-ok' in flags:
@@ -1154,6 +1380,19 @@ def run(tier, seed, drv, prop=None, n=None):
             res.sample({'cfg': script['cfg'], 'events': [e if e[0] != 'data' or len(e[2]) < 200 else [e[0], e[1], e[2][:60] + '...'] for e in script['events'][:25]]})
         if len(res.violations) > 50 or len(res.disagreements) > 10:
             break
+    # crash-point sweep: connections lost at chosen points of freshly generated base histories
+    if prop in ('C09', 'C10', 'C14', 'C19', 'C01', 'C04'):
+        nbase, per = {'quick': (12, 6), 'thorough': (60, 40)}[tier]
+        for k in range(nbase):
+            base = gen_script(rng, 'quick', 'async' if (k % 3 == 0 and prop != 'C15') else profiles[k % len(profiles)])
+            for var in loss_sweep(base, rng, tier, per):
+                flags, viol = run_script(var, drv, res)
+                res.note('loss-sweep.variants')
+                res.nontriv([hashlib.sha1(json.dumps(var['events']).encode()).hexdigest()])
+                if len(res.violations) > 50 or len(res.disagreements) > 10:
+                    break
+    if res.disagreements and not [v for v in res.violations if v['property'] == prop]:
+        directed_search(res, drv)
     if prop == 'C02':
         nonce_variety(res)
     res.assumptions += [
